@@ -151,8 +151,17 @@ func sameVal(a, b any) bool {
 		return false
 	}
 	if ta.Comparable() {
-		defer func() { _ = recover() }()
-		if a == b {
+		// Comparable() describes the static type only: a struct or array with an interface
+		// member holding a slice or map still panics on ==.
+		eq := func() (r bool) {
+			defer func() {
+				if recover() != nil {
+					r = false
+				}
+			}()
+			return a == b
+		}()
+		if eq {
 			return true
 		}
 	}
